@@ -7,7 +7,7 @@ Job description on stdin (JSON):
      "preamble": [case, ...],                                   # unrelated scenarios run first (not reported)
      "alloc": int}                                               # throw-away allocations kept alive during the runs
 
-Environment ``C03_SLEEP=1``: sleep a few ms between scenarios and ~0.5 ms every 40 deliveries (inside the
+Environment ``C03_SLEEP=1``: sleep a few ms between scenarios and 1 ms every 20 deliveries (inside the
 public ``control.on_event`` hook).  Nothing is monkeypatched: a component that reads the wall clock sees a
 different clock, everything else is unaffected.
 
@@ -44,8 +44,8 @@ def run_one(case, sleep):
         if len(head) < 200:
             head.append(line)
         cnt[0] += 1
-        if sleep and cnt[0] % 40 == 0:
-            time.sleep(0.0005)
+        if sleep and cnt[0] % 20 == 0:
+            time.sleep(0.001)
 
     try:
         sc = scenarios.build(case)
@@ -54,7 +54,8 @@ def run_one(case, sleep):
         out.update(family=case.get("family"), outcome=f"build-exception:{type(e).__name__}", ddig="", sdig="", dhead=[],
                    stats=traceback.format_exc()[-1500:], later=False)
         return out
-    out["family"] = sc.family
+    out["family"] = sc.family + (f".{sc.variant}" if getattr(sc, "variant", "") else "")
+    out["base_family"] = sc.family
     w = max(1, sc.workload_size)
     probe = SimProbe(sc.sim, max_per_instant=max(20000, 200 * w), max_events=400000, log=False, on_event=on_event)
     try:
